@@ -59,6 +59,21 @@ then an endpoint `(w, r)` of each of them, all listened to by the same sink; its
 `sinkAnswer k a` is `(*Reader).Receive(a)` by its owner: pop the oldest request, answer the writer
 it came from.  `Writer.Close` never touches that queue.
 
+Error ports.  A `OneToOneNode` has a second downstream writer per process, the error writer
+(`errPort`), consumed by its `catch` loop, which is the same program as `backward`
+(`tracer.Receive` per response, `tracer.Drop` when the channel closes).  The model keeps one
+downstream writer per node endpoint (`Listener.node outW`, `Consumer.node`): a node whose action
+fails – every request travels on through the error port – is the same machine with the error
+writer in that role, and that is how the harness's error-port paths are replayed.  A node that
+routes some requests to its out port and others to its error port at the same time is not
+modelled (its `reads` entries would have to name the writer they wait for).
+
+A closed in-port.  `InPort.Close` forgets readers and listeners; a later `Open` – e.g. by an
+`OutPort.Open` that took its snapshot of the linked in-ports before the close – hands out a fresh
+reader.  Since `fix: a closed in-port drops what is still written to it` the port itself listens
+on such a reader and answers every packet with the dropped error: in the model that reader is an
+endpoint whose listener is a sink that always answers `Ans.dropped` (`sinkAnswer k dropped`).
+
 The static wiring (`Topo`) – which endpoints a port owns (in the order its `Close` ranges over its
 map; the theorems hold for every order), which hooks a process holds, who consumes a writer, who
 listens on a reader – is a parameter.
